@@ -1297,6 +1297,16 @@ func (m *Model) ruleINSERTGUARD(r *Results) {
 				guard = true
 			}
 		}
+		// ... and by nothing else: a further condition (on the CAS order, on the expiry) makes the
+		// insert refuse a key that has no body
+		extra := ""
+		for _, c := range dw.W.Where {
+			if noBodyTest(c) || colEqParam(c, "collection") != nil || colEqParam(c, "key") != nil || colEqParam(c, "cas") != nil {
+				continue
+			}
+			extra = c.String()
+		}
+		r.check(extra == "", rule, key+" / conflict-guard is only the no-body test", pos, "the conflict update is restricted by the no-body test (and the row's address / expected CAS) only", "the ON CONFLICT update carries the further condition "+extra+": a key whose row has no body (a tombstone) can then be refused by an insert although nothing live is in the way")
 		r.check(guard, rule, key+" / conflict-guard", pos, "ON CONFLICT update applies only to rows without a body", fmt.Sprintf("ON CONFLICT DO UPDATE is not restricted (as a top-level AND-conjunct) to rows without a body: conflict WHERE = %s", exprString(dw.Stmt.Conflict.Where)))
 		// conditional statement => RowsAffected consulted
 		r.check(m.rowsAffectedConsulted(dw.Site), rule, key+" / RowsAffected", pos, "the statement's RowsAffected is consulted", "conditional INSERT whose RowsAffected is never consulted: a refused insert is indistinguishable from a successful one")
